@@ -263,6 +263,7 @@ void exec_op(World& W, TaskCtx& T, const Op& op, bool concurrent) {
   catch (clause_fault const&) { o.outcome = OC_THREW_FAULT; }
   catch (std::runtime_error const& ex) { o.outcome = OC_THREW_STD; o.sval = ex.what(); }
   catch (sim_error const& ex) { o.outcome = OC_THREW_USER; o.sval = ex.text; }
+  catch (char const* cs) { o.outcome = OC_THREW_USER; o.sval = cs ? cs : ""; }
   catch (std::logic_error const& ex) { o.outcome = OC_THREW_LOGIC; o.sval = ex.what(); }
   catch (int v) { o.outcome = OC_THREW_INT; o.value = v; }
   catch (...) { o.outcome = OC_THREW_OTHER; }
